@@ -18,16 +18,55 @@ from .repo import Repo
 
 
 class ClassModel:
-    def __init__(self, repo: Repo, rel: str, where: str, extra_env: dict | None = None, max_steps: int = 50000):
+    def __init__(self, repo: Repo, rel: str | list[str], where: str, extra_env: dict | None = None, max_steps: int = 50000):
         self.repo = repo
-        self.rel = rel
+        self.rels = [rel] if isinstance(rel, str) else list(rel)
+        self.rel = self.rels[0]
         self.where = where
         self.max_steps = max_steps
-        self.classes: dict[str, ast.ClassDef] = dict(repo.mod(rel).classes())
-        self.env: dict[str, Any] = dict(extra_env or {})
+        self.classes: dict[str, ast.ClassDef] = {}
+        self.functions: dict[str, ast.FunctionDef] = {}
+        self.env: dict[str, Any] = {}
+        for r in self.rels:
+            m = repo.mod(r)
+            for cname, c in m.classes().items():
+                self.classes.setdefault(cname, c)
+            for n in m.tree.body:
+                if isinstance(n, ast.FunctionDef):
+                    self.functions[n.name] = n  # last definition wins (overloads)
+            for k, v in m.constants().items():
+                if isinstance(v, (int, str, bool)) or v is None:
+                    self.env.setdefault(k, v)
         for cname in self.classes:
             self.env[cname] = self._ctor(cname)
+        for fname, fn in self.functions.items():
+            self.env[fname] = self._function(fn)
+        self.env.update(extra_env or {})
         self._cache: dict[tuple[str, str], Callable | None] = {}
+
+    def _function(self, fn: ast.FunctionDef) -> Callable:
+        def call(*args: Any, **kwargs: Any) -> Any:
+            return self._ev().closure(fn, base_env=dict(self.env))(*args, **kwargs)
+
+        return call
+
+    def get_after(self, owner: str, obj: Obj, mname: str) -> Callable | None:
+        """The method `mname` of the class after `owner` in obj's MRO (super())."""
+        mro = self._mro(obj.kinds[0])
+        if owner not in mro:
+            return None
+        for c in mro[mro.index(owner) + 1:]:
+            for n in reversed(self.classes[c].body):
+                if isinstance(n, ast.FunctionDef) and n.name == mname:
+                    return self._method(n, c)
+        return None
+
+    def match_args(self, cname: str) -> tuple | None:
+        for c in self._mro(cname):
+            for n in self.classes[c].body:
+                if isinstance(n, ast.Assign) and isinstance(n.targets[0], ast.Name) and n.targets[0].id == "__match_args__" and isinstance(n.value, ast.Tuple):
+                    return tuple(e.value for e in n.value.elts if isinstance(e, ast.Constant))
+        return None
 
     # --- method table interface used by Ev
     def get(self, key: tuple[str, str]) -> Callable | None:
@@ -36,12 +75,13 @@ class ClassModel:
         kind, name = key
         want_prop = name.startswith("@")
         mname = name[1:] if want_prop else name
-        fn = self._resolve(kind, mname)
+        res = self._resolve_owner(kind, mname)
         out: Callable | None = None
-        if fn is not None:
+        if res is not None:
+            owner, fn = res
             is_prop = any(ast.unparse(d) == "property" for d in fn.decorator_list)
             if is_prop == want_prop:
-                out = self._method(fn)
+                out = self._method(fn, owner)
         self._cache[key] = out
         return out
 
@@ -58,19 +98,26 @@ class ClassModel:
                 work.append(t)
         return order
 
-    def _resolve(self, cname: str, mname: str) -> ast.FunctionDef | None:
+    def _resolve_owner(self, cname: str, mname: str) -> tuple[str, ast.FunctionDef] | None:
         for c in self._mro(cname):
             for n in reversed(self.classes[c].body):
                 if isinstance(n, ast.FunctionDef) and n.name == mname:
-                    return n
+                    return c, n
         return None
+
+    def _resolve(self, cname: str, mname: str) -> ast.FunctionDef | None:
+        r = self._resolve_owner(cname, mname)
+        return r[1] if r else None
 
     def _ev(self) -> Ev:
         return Ev(dict(self.env), self.where, self, self.max_steps)  # type: ignore[arg-type]
 
-    def _method(self, fn: ast.FunctionDef) -> Callable:
+    def _method(self, fn: ast.FunctionDef, owner: str | None = None) -> Callable:
         def call(recv: Obj, *args: Any, **kwargs: Any) -> Any:
-            return self._ev().closure(fn, base_env=dict(self.env))(recv, *args, **kwargs)
+            env = dict(self.env)
+            env["__owner__"] = owner
+            env["__self__"] = recv
+            return self._ev().closure(fn, base_env=env)(recv, *args, **kwargs)
 
         return call
 
@@ -87,9 +134,9 @@ class ClassModel:
                 obj.__dict__.update(kwargs)
                 obj.__dict__["_fields"] = tuple(fields)
                 return obj
-            init = self._resolve(cname, "__init__")
-            if init is not None:
-                self._method(init)(obj, *args, **kwargs)
+            r = self._resolve_owner(cname, "__init__")
+            if r is not None:
+                self._method(r[1], r[0])(obj, *args, **kwargs)
             return obj
 
         return make
